@@ -4,6 +4,7 @@ Same generator simulation as C01 (one engine, two oracles) with the motif-shape 
 callbacks returning one bare edge, one edge in a tuple, exactly two edges, k edges; names homogeneous
 or per edge.  Oracle compares the three columns against the instrumented callbacks' own log.
 """
+from numbers import Integral
 from collections import Counter
 
 from gcmpy.names.network_names import NetworkNames
@@ -68,7 +69,7 @@ def evaluate(sc, ctx, st, val, rec, reuse):
             return n_edges
         ctx.check(f"{P}.pairs")
         for x in edges:
-            if not (isinstance(x, (tuple, list)) and len(x) == 2 and all(isinstance(a, int) for a in x)):
+            if not (isinstance(x, (tuple, list)) and len(x) == 2 and all(isinstance(a, Integral) for a in x)):
                 ctx.violate(f"{P}.pairs", f"edge entry {x!r} is not a pair of vertex ids{tag}")
                 return n_edges
         # groups: entries sharing an id == exactly one invocation's (edge, name) rows
